@@ -1184,6 +1184,11 @@ func (r *Raft) restoreUserSnapshot(meta *SnapshotMeta, reader io.Reader) error {
 		return ErrRaftShutdown
 	}
 	if err := fsm.Error(); err != nil {
+		if err == ErrRaftShutdown {
+			// The FSM goroutine is going away with us; nobody will run this
+			// state machine again, so there is no bad state to escape from.
+			return err
+		}
 		panic(fmt.Errorf("failed to restore snapshot: %v", err))
 	}
 
